@@ -363,6 +363,51 @@ theorem C07_post_without_plan_or_space_fails (s : State) (h now : Int) (c m : St
           omega
   exact ⟨key, by simp [stepT, key]⟩
 
+/-! ### (2b) a posting is classed by the sign of `Expires`, once -/
+
+theorem mul_le_of_le_tdiv {a k c : Int} (hk : 0 < k) (hc : 0 < c) (h : c ≤ Int.tdiv a k) : c * k ≤ a := by
+  rw [← Canine.tdiv_eq] at h; unfold Canine.tdiv at h
+  simp only [show (0:Int) ≤ k by omega, if_true] at h
+  split at h
+  · exact (Int.le_ediv_iff_mul_le hk).1 h
+  · have : 0 ≤ (-a) / k := Int.ediv_nonneg (by omega) (by omega)
+    omega
+
+/-- **A pay-once posting pays for at least a whole day.**  An accepted `MsgPostFile` with a
+positive `Expires` has `Expires ≥ height + 14 400` (a day of six-second blocks), provided the
+block count times six stays inside int64 — as it does for every height and `Expires` a chain can
+see.  So the sign of `Expires` classes a posting once and for all: what `postFile` charges to the
+plan (`Expires ≤ 0`, `postFile_shape`) is exactly what `removeFile` later gives back. -/
+theorem C07_payonce_post_pays_for_a_day {s s' : State} {h now : Int} {c m : String} {fs mp ex pt : Int}
+    {note : String} {nv : Bool} {jp : Dec} {gid gacc : String}
+    (hs : postFile s h now c m fs mp ex pt note nv jp gid gacc = some s') (hex : 0 < ex)
+    (hnw : I64.minV ≤ (ex - h) * 6 ∧ (ex - h) * 6 ≤ I64.maxV) : h + 14400 ≤ ex := by
+  simp only [postFile, bind, Option.bind_eq_some_iff, req_eq_some] at hs
+  obtain ⟨_, _, _, _, hrest⟩ := hs
+  rw [if_pos hex] at hrest
+  simp only [Option.bind_eq_some_iff, req_eq_some] at hrest
+  obtain ⟨_, ⟨hd, _⟩, _⟩ := hrest
+  rw [I64.mul, I64.wrap_id hnw.1 hnw.2] at hd
+  have h1 : 1 * 24 ≤ Int.tdiv (Int.tdiv ((ex - h) * 6) 60) 60 :=
+    mul_le_of_le_tdiv (by omega) (by omega) (by omega)
+  have h2 : 24 * 60 ≤ Int.tdiv ((ex - h) * 6) 60 :=
+    mul_le_of_le_tdiv (by omega) (by omega) (by omega)
+  have h3 : 24 * 60 * 60 ≤ (ex - h) * 6 :=
+    mul_le_of_le_tdiv (by omega) (by omega) (by omega)
+  omega
+
+/-- … and a positive `Expires` that is not a day ahead is refused: the message changes nothing
+(neither a file nor any plan's usage). -/
+theorem C07_nonfuture_payonce_post_refused (s : State) (h now : Int) (c m : String) (fs mp ex pt : Int)
+    (note : String) (nv : Bool) (jp : Dec) (gid gacc : String)
+    (hex : 0 < ex) (hnear : ex < h + 14400) (hh : 0 ≤ h ∧ h ≤ 1000000000000000000) :
+    postFile s h now c m fs mp ex pt note nv jp gid gacc = none := by
+  cases hs : postFile s h now c m fs mp ex pt note nv jp gid gacc with
+  | none => rfl
+  | some s' =>
+    have := C07_payonce_post_pays_for_a_day hs hex (by unfold I64.minV I64.maxV; omega)
+    omega
+
 /-! ### (3) deleting returns exactly the footprint -/
 
 /-- the accounting effect of `removeFile` on a stored file, under the invariant -/
